@@ -629,8 +629,16 @@ class Backend:
 
         @staticmethod
         def eigh(x):
-            Dh, V, c = nc.eigh(x.val)
-            return EigVals(Dh, 2, c), NArr(NC.of(V), x.shape)
+            if getattr(x, "positive_definite", True) and not getattr(Backend, "eigh_indefinite", False):
+                Dh, V, c = nc.eigh(x.val)
+                return EigVals(Dh, 2, c), NArr(NC.of(V), x.shape)
+            Lam, V, c = nc.eigh_general(x.val)
+            return NArr(NC({(Lam,): c}, Lam.rows, Lam.cols), (Lam.rows,)), NArr(NC.of(V), x.shape)
+
+        @staticmethod
+        def eigvalsh(x):
+            Lam, V, c = nc.eigh_general(x.val)
+            return NArr(NC({(Lam,): c}, Lam.rows, Lam.cols), (Lam.rows,))
 
         @staticmethod
         def eig(x):
@@ -678,9 +686,19 @@ class Backend:
 
     def empty(self, shape, dtype=None, **kw):
         shape = tuple(shape)
+        if len(shape) == 3 and isinstance(shape[1], int) and shape[1] <= 4:
+            # (Nk, Nspin, n): a table of vectors, filled entry by entry
+            return [[None for _ in range(shape[1])] for _ in range(shape[0])]
         if len(shape) == 3:
             return NStack([None for _ in range(shape[0])])
         raise A.OutsideSubset("xp.empty of a non-stack shape")
+
+    def sort(self, x, **kw):
+        if isinstance(x, NArr) and len(x.val.t) == 1:
+            ((w, c),) = x.val.t.items()
+            if len(w) == 1 and w[0].kind == "eig" and w[0].diag:
+                return x  # eigenvalues are returned in ascending order (contract of eigh / eigvalsh)
+        raise A.OutsideSubset("xp.sort of a general array")
 
     def zeros(self, shape, dtype=None, **kw):
         if isinstance(shape, int):
